@@ -354,7 +354,7 @@ def size : SProg → Nat
 def readOnly : SProg → Bool
   | .seq a b => readOnly a && readOnly b
   | .child _ _ b => readOnly b
-  | .put _ _ _ => false
+  | .put _ _ _ _ => false
   | .sow _ _ _ => false
   | .perturb _ _ _ => false
   | _ => true
